@@ -68,6 +68,8 @@ def _case(draw, stratum):
             "mix_repeat": draw(st.integers(0, 2)),
             "mix_wash": draw(st.sampled_from([1, 2, 3, "flush", "reuse"])),
         }
+        # stock and diluent as two columns of ONE reservoir object (a quarter of the executions)
+        case["exec"]["shared"] = (case["exec"]["stock_vrows"] + case["exec"]["dil_vrows"]) % 4 == 0
     return case
 
 
@@ -166,6 +168,12 @@ def _execute(obs, case, plan, info):
     d_init[dcol] = max(info["v_dil"], 0) + 1000.0
     stock = robotools.Trough("Stocks", ex["stock_vrows"], scols, min_volume=500.0, max_volume=1e9, initial_volumes=s_init, column_names=[stock_name if i == scol else None for i in range(scols)])
     diluent = robotools.Trough("Diluents", ex["dil_vrows"], dcols, min_volume=500.0, max_volume=1e9, initial_volumes=d_init, column_names=[dil_name if i == dcol else None for i in range(dcols)])
+    dcol_arg = dcol
+    if ex.get("shared"):
+        both = robotools.Trough("Reservoir", ex["stock_vrows"], scols + dcols, min_volume=500.0, max_volume=1e9, initial_volumes=s_init + d_init, column_names=[stock_name if i == scol else None for i in range(scols)] + [dil_name if i == dcol else None for i in range(dcols)])
+        stock = diluent = both
+        dcol_arg = scols + dcol
+        obs.cls("executed:one-reservoir")
     plate = robotools.Labware("Dilution", R + ex["extra_rows"], C + ex["extra_cols"], min_volume=0, max_volume=1e6)
     dest = None
     v_dest = None
@@ -185,7 +193,7 @@ def _execute(obs, case, plan, info):
             stock=stock,
             stock_column=scol,
             diluent=diluent,
-            diluent_column=dcol,
+            diluent_column=dcol_arg,
             dilution_plate=plate,
             destination_plate=dest,
             v_destination=v_dest,
@@ -214,7 +222,7 @@ def _execute(obs, case, plan, info):
                     obs.bad("C14/destination", f"{info['desc']}: destination well ({r},{c}) holds {dest.volumes[r, c]} µL at {gd!r}, expected {v_dest} µL at {x[r, c]!r}")
                     return
     used_stock = s_init[scol] - float(stock.volumes[0, scol])
-    used_dil = d_init[dcol] - float(diluent.volumes[0, dcol])
+    used_dil = d_init[dcol] - float(diluent.volumes[0, dcol_arg])
     if abs(used_stock - info["v_stock"]) > 1e-6:
         obs.bad("C14/stock-consumption", f"{info['desc']}: to_worklist consumed {used_stock} µL stock, v_stock is {info['v_stock']}")
     if used_dil > float(plan.v_diluent) + 1e-6:
